@@ -218,8 +218,8 @@ Proof.
     rewrite Es in Hs. cbn in Hs. destruct Hs as [I' _]. cbn.
     eapply InvF_GG; [exact HF | exact I'|]. eapply GG_trans; [exact G1|]. apply G3_GG.
     eapply G3_trans; [apply delete_hash_G3 | eapply set_sstate_G3; [| |exact Es]; discriminate].
-  - destruct (set_sstate label SPending false s) as [s'|t|t] eqn:Es; try exact I.
-    pose proof (@set_sstate_spec true false label SPending false s HI (fun H _ => False_ind _ (diff_false_true H))) as Hs.
+  - destruct (set_sstate label SPending true s) as [s'|t|t] eqn:Es; try exact I.
+    pose proof (@set_sstate_spec true false label SPending true s HI (fun H _ => False_ind _ (diff_false_true H))) as Hs.
     rewrite Es in Hs. cbn in Hs. destruct Hs as [I' _]. cbn.
     eapply InvF_GG; [exact HF | exact I' | apply G3_GG; eapply set_sstate_G3; [| |exact Es]; discriminate].
   - eapply wpg_weaken.
